@@ -1603,6 +1603,7 @@ func (l *lexer) linebreak() bool {
 				// ends at the closing back-quote
 				l.unread()
 				l.comment()
+				l.mark(0)
 				return true
 			}
 			l.b.WriteRune(r)
